@@ -119,10 +119,9 @@ func (tty *stdIoTty) Drain() error {
 
 func (tty *stdIoTty) Stop() error {
 	tty.l.Lock()
-	if err := term.Restore(tty.fd, tty.saved); err != nil {
-		tty.l.Unlock()
-		return err
-	}
+	// keep going if the terminal settings cannot be restored (the terminal
+	// may have hung up): the watcher goroutine still has to be stopped
+	err := term.Restore(tty.fd, tty.saved)
 	_ = tty.in.SetReadDeadline(time.Now())
 
 	signal.Stop(tty.sig)
@@ -131,7 +130,7 @@ func (tty *stdIoTty) Stop() error {
 
 	tty.wg.Wait()
 
-	return nil
+	return err
 }
 
 func (tty *stdIoTty) WindowSize() (WindowSize, error) {
